@@ -276,15 +276,17 @@ def gen_reply(rng, v, outstanding, answered, kinds_by_id):
 
 
 def gen_events(rng, nmax=14, batch=False):
-    """Abstract event plan: 'S' (with kind chosen later), 'R', 'B', 'E'. batch: all sends first, E last."""
+    """Abstract event plan: 'S' send, 'R' reply, 'X' cancel a waiting caller, 'B' short frame, 'E' end of channel.
+    batch: all sends first, then cancellations, then replies, E last."""
     if batch:
         k = rng.randint(1, 8)
         n = rng.randint(0, k + 2)
-        return ['S'] * k + ['R'] * n + ['E']
+        x = rng.choice([0, 0, 0, 1, 1, 2])
+        return ['S'] * k + ['X'] * x + ['R'] * n + ['E']
     evs = []
     for _ in range(rng.randint(2, nmax)):
         r = rng.random()
-        evs.append('S' if r < 0.45 else 'R' if r < 0.93 else 'B' if r < 0.96 else 'E')
+        evs.append('S' if r < 0.42 else 'R' if r < 0.86 else 'X' if r < 0.93 else 'B' if r < 0.96 else 'E')
     if rng.random() < 0.5:
         evs.append('S')
     return evs
@@ -299,6 +301,8 @@ def events_to_coq(evs):
             out.append('(CRecv %d %d %s)' % (e[1], e[2], zl(e[3])))
         elif e[0] == 'B':
             out.append('CBadFrame')
+        elif e[0] == 'X':
+            out.append('(CCancel %d)' % e[1])
         else:
             out.append('CEof')
     return '[' + ';'.join(out) + ']'
@@ -360,7 +364,8 @@ def oracle_session(v, info):
     rtypes = dict(KINDS)
     alive = True
     waiting = {}                 # id -> serial
-    expect = {}                  # serial -> ('reply', type, payload) | ('fail',) | ('pending',)
+    cancelled = set()
+    expect = {}                  # serial -> ('reply', type, payload) | ('fail',) | ('pending',) | ('cancelled',)
     serial = 0
     for ev in info['events']:
         if ev[0] == 'S':
@@ -376,20 +381,29 @@ def oracle_session(v, info):
                 if wid is not None:
                     bad.append(f'request {serial} was sent after the session had failed')
             serial += 1
+        elif ev[0] == 'X':
+            # the caller goes away; the server still owes a reply with this id, which stays a known id
+            if alive and ev[1] in waiting.values() and ev[1] not in cancelled:
+                cancelled.add(ev[1])
+                expect[ev[1]] = ('cancelled',)
         elif not alive:
             continue
         elif ev[0] == 'R':
             _, rtype, rid, payload = ev
             if rid in waiting:
-                expect[waiting.pop(rid)] = ('reply', rtype, payload)
+                w = waiting.pop(rid)
+                if w not in cancelled:
+                    expect[w] = ('reply', rtype, payload)
             else:
                 for w in waiting.values():
-                    expect[w] = ('fail',)
+                    if w not in cancelled:
+                        expect[w] = ('fail',)
                 waiting = {}
                 alive = False
         else:
             for w in waiting.values():
-                expect[w] = ('fail',)
+                if w not in cancelled:
+                    expect[w] = ('fail',)
             waiting = {}
             alive = False
     if info['open'] != alive:
@@ -398,6 +412,10 @@ def oracle_session(v, info):
         ex = expect.get(i, ('pending',))
         kind = info['kinds'][i]
         want = rtypes[kind]
+        if ex[0] == 'cancelled':
+            if not t.cancelled():
+                bad.append(f'caller {i} was cancelled but ended with {_short(t)}')
+            continue
         if ex[0] == 'pending':
             if t.done():
                 bad.append(f'caller {i} completed ({_short(t)}) although no reply with its id {info["wire_ids"][i]} arrived')
@@ -484,6 +502,18 @@ async def mem_session(rng, v, start, plan, fixed=None):
     for ev in plan:
         if fixed is None and ev[0] == 'R' and not book.outstanding and rng.random() < 0.85:
             ev = 'S'                  # replies to nobody are kept rare: they end the session at once
+        if fixed is None and ev[0] == 'X':
+            live = [i for i, t in enumerate(tasks) if not t.done()]
+            if not live:
+                ev = 'S'
+            else:
+                ev = ('X', rng.choice(live))
+        if ev[0] == 'X':
+            if 0 <= ev[1] < len(tasks):
+                tasks[ev[1]].cancel()
+            await settle()
+            events.append(('X', ev[1]))
+            continue
         if ev[0] == 'S':
             if fixed is not None:
                 kind = ev[1]
@@ -616,6 +646,14 @@ async def e2e_session(rng, conn, fake, v, plan):
             kinds.append(kind)
             wire_ids.append(rid)
             events.append(('S', kind))
+        elif ev == 'X':
+            live = [i for i, t in enumerate(tasks) if not t.done()]
+            if live:
+                w = rng.choice(live)
+                tasks[w].cancel()
+                for _ in range(10):
+                    await asyncio.sleep(0)
+                events.append(('X', w))
         elif ev == 'R':
             rtype, rid, payload = gen_reply(rng, v, book.outstanding, book.answered, book.kinds_by_id)
             try:
@@ -633,7 +671,7 @@ async def e2e_session(rng, conn, fake, v, plan):
             except (BrokenPipeError, ConnectionError, OSError):
                 pass
             events.append(('E',))
-    done, pending = await asyncio.wait(tasks, timeout=60) if tasks else (set(), set())
+    done, pending = await asyncio.wait(tasks, timeout=30) if tasks else (set(), set())
     obs = ['(%s, %s, %s)' % (kind_to_coq(k), copt(w, cz), outcome_to_coq(t)) for k, w, t in zip(kinds, wire_ids, tasks)]
     case = '(%d, %d, %s, %s, %s)' % (v, 0, events_to_coq(events), '[' + ';'.join(obs) + ']', 'false')
     info = {'tasks': [Snap(t) for t in tasks], 'kinds': kinds, 'wire_ids': wire_ids, 'events': events, 'open': False,
